@@ -11,7 +11,7 @@ PROPERTY = "C17"
 FUNCTIONS = ["LifetimeModel.sf", "LifetimeModel.pdf", "StandardDeviationLifetimeModel.set_prms", "FixedLifetime.set_prms", "WeibullLifetime.set_prms",
              "InflowDrivenDSM.compute", "StockDrivenDSM.compute", "LifetimeModel.cast_any_to_np_array"]
 ASSUMPTIONS = ["scipy kernels are functions of their arguments (uninterpreted; congruence only)", "lifetime parameters positive",
-               "np.allclose (guards a warning only) returns False", "scipy.linalg.solve_triangular satisfies its documented contract"]
+               "np.allclose follows numpy's definition; in the longest histories of each tier it answers False (compared arrays assumed not within tolerance)", "scipy.linalg.solve_triangular satisfies its documented contract"]
 OUTSIDE = ["histories longer than the bound", "n > 3", "direct writes to private attributes"]
 OPS = ["driver", "prms", "compute", "read_sf", "read_pdf"]
 BOUNDS = {"quick": dict(n=3, history="every sequence over {set driver, set_prms, compute, read sf, read pdf} of length <= 4 that ends in compute",
@@ -22,11 +22,13 @@ REAL = {"FixedLifetime": ["mean"], "NormalLifetime": ["mean", "std"], "FoldedNor
         "LogNormalLifetime": ["mean", "std"], "WeibullLifetime": ["weibull_shape", "weibull_scale"]}
 DEF = {"mean": 3.0, "std": 1.0, "weibull_shape": 1.7, "weibull_scale": 3.5}
 KINDS = ["idsm", "sdsm_manual", "sdsm_lapack"]
+LONGEST = [4]
 
 
 def configs(tier, seed):
     out = []
     L = 4 if tier == "quick" else 5
+    LONGEST[0] = L
     seqs = []
     for k in range(0, L):
         for pre in itertools.product(OPS, repeat=k):
@@ -59,7 +61,10 @@ def configs(tier, seed):
 def shim_plan(cfg):
     from svx import shims
 
-    return shims.default_plan(allclose="false")
+    # np.allclose follows numpy's definition (a solver-decided fork per distinct call) except in the longest histories of
+    # each tier, where it answers False (= the compared arrays are assumed not to be within its tolerance)
+    longest = cfg["h"] == "history" and len(cfg["seq"]) >= LONGEST[0]
+    return shims.default_plan(allclose="false" if longest else "model")
 
 
 def ctx_setup(cfg, c):
